@@ -12,7 +12,7 @@ CLAIMED = {
 }
 CLAIMED['C02'] = dict(design='2/C02', text='Every Add/Sub/Mul/Neg impl body that the MIR defines for the 7x7 operand kinds (f64, &DecisionVariable, &Parameter, Linear, '
     'Quadratic, Polynomial, Function; macro-generated impls included) is executed symbolically: operands with <=2 non-constant terms, every id '
-    'pattern over {0,1,2} (constants split over two monomials included), plus wide operands (6-8 terms, 4 for products) over concrete unsorted id patterns with repeats, symbolic real coefficients; BTreeMap keys are ordered and merged through the crate\'s own Ord impls; z3 proves coefficient-wise agreement of the result message with the exact polynomial '
+    'pattern over {0,1,2} (constants split over two monomials included), plus wide operands (6-8 terms, 4 for products) over concrete unsorted id patterns with repeats, symbolic real coefficients; BTreeMap keys are ordered and merged through the crate\'s own Ord impls; the iterator folds (Sum for Linear, Sum / Product for Function) over two operands; z3 proves coefficient-wise agreement of the result message with the exact polynomial '
     'sum/difference/product within the documented epsilon-dropping allowance, that no term is lost by the result type, and that the term '
     'iterators yield sorted ids summing to the polynomial.',
     note='R-model; coefficient domain 0 or magnitude in [2^-10,2^10] (positive only for the larger operand pairs, recorded per harness); '
@@ -126,7 +126,7 @@ CLAIMED['C07'] = dict(design='2/C07', text='The prost-derive output of all 31 me
 CLAIMED['C20'] = dict(design='2/C20', text='The OMMX layer of an artifact is executed from MIR: Builder::add_instance/add_solution/add_parametric_instance/add_sample_set, build, Artifact::get_layer and the four typed getters, '
     'get_instances, get_solutions, get_layer_descriptors, get_manifest and every annotation setter/getter of the four annotation types; encode_to_vec/decode run the real prost-derive output on abstract wire records (C07). '
     'ocipkg is replaced by its contract (descriptor+blob appended per add_layer, digest equal iff bytes equal, reopen = identity, manifest order). Layer digests and the requested digest are 64-bit solver variables: '
-    'z3 proves for archives of 0..2 (quick) / 0..3 (thorough) layers of any kinds that a typed getter returns exactly a stored layer of that kind with that digest (message and annotations) and fails for every other digest or kind, '
+    'z3 proves for archives of 0..2 (quick) / 0..3 (thorough) layers of any kinds that a typed getter returns exactly a stored layer of that kind with that digest (message and annotations) and fails for every other digest or kind, also as the second of two typed getter calls on one handle, '
     'that listings are in insertion order under the published media types, that only the OMMX artifact type is accepted, and that every annotation getter returns the set value (counts over all of u64) under the published key and fails when unset.',
     note='The substrate (tar, SHA-256, OCI JSON, file system) is NOT verified: it is modelled by contract and the contract is compared with real archives written to disk and reopened on concrete cases each run; counterexamples are replayed on real archives. '
     'chrono RFC3339 and integer Display/FromStr round trips assumed; serde_json parameters/config outside; <=3 layers (property: 6). One defect repaired by a fix: commit (digest shared by layers of different kinds); '
